@@ -395,6 +395,7 @@ def check_pair(p, q, tag):
 
 def _work_inner(job):
     from exo.stdlib.scheduling import simplify
+    from .sweep import with_watchdog
 
     out = {"results": [], "errors": [], "rejected": 0}
     if job["kind"] == "generated":
@@ -404,7 +405,7 @@ def _work_inner(job):
         spec_by_name = {s[0]: s for s in job["specs"]}
         for name, p in mod.PROCS.items():
             try:
-                q = simplify(p)
+                q = with_watchdog(lambda: simplify(p))
             except BaseException as ex:  # noqa
                 out["results"].append({"name": name, "status": "simplify_raised", "why": f"{type(ex).__name__}: {str(ex)[:200]}", "spec": spec_by_name[name][1:]})
                 continue
@@ -436,7 +437,7 @@ def _work_inner(job):
                         variants.append((f"{opname}{SE.describe_arg(list(args))}", q))
             for vn, pv in variants:
                 try:
-                    q = simplify(pv)
+                    q = with_watchdog(lambda: simplify(pv))
                 except BaseException as ex:  # noqa
                     out["results"].append({"name": f"{name}:{vn}", "status": "simplify_raised", "why": f"{type(ex).__name__}: {str(ex)[:200]}"})
                     continue
